@@ -138,9 +138,12 @@ Step(S, ev) ==
              order == SortedById(marked)
              ok == \A h \in marked : Convertible(E, h)
              want == [k \in 1..Len(order) |-> RecordOf(E, order[k])]
+             dupM == \E i, j \in 1..Len(ev.data) : i # j /\ ev.data[i].m = ev.data[j].m
+             dupF == IF dupM THEN {F("C14", "serialised data holds the same marker twice: a load cannot produce one entity per source entity", ev.data),
+                                   F("C15", "serialised data holds the same marker twice", ev.data)} ELSE {}
          IN IF ~ev.rec
             THEN [S |-> S,
-                  f |-> (IF ok /\ panic THEN {F("C14", "serialisation failed", ev.panic)} ELSE {})
+                  f |-> dupF \cup (IF ok /\ panic THEN {F("C14", "serialisation failed", ev.panic)} ELSE {})
                    \cup (IF ok /\ ~panic /\ ev.data # want THEN {F("C14", "serialised data differs from the marked entities (got, expected)", <<ev.data, want>>)} ELSE {})
                    \cup cmp(E, "C14", "save must not change the world")]
             ELSE \* recursive: everything reachable gets marked (marker ids as observed), then is written
@@ -154,7 +157,7 @@ Step(S, ev) ==
                      okRec == \A h \in cl : E[h][4] = None \/ SeqToSet(E[h][4][1]) \subseteq DOMAIN E
                  IN IF ~okRec THEN [S |-> put(obs, W), f |-> {}] ELSE
                     [S |-> put(E2, W),
-                     f |-> (IF panic THEN {F("C14", "recursive serialisation failed", ev.panic)} ELSE {})
+                     f |-> dupF \cup (IF panic THEN {F("C14", "recursive serialisation failed", ev.panic)} ELSE {})
                       \cup (IF ~panic /\ (\E h \in cl : E2[h][1] = None) THEN {F("C14", "recursive serialisation left a reachable entity unmarked", cl)} ELSE {})
                       \cup (IF ~panic /\ (\A h \in cl : E2[h][1] # None) /\ bad THEN {F("C14", "recursively serialised data differs (got, expected set)", <<ev.data, wantSet>>)} ELSE {})
                       \cup cmp(E2, "C14", "recursive save")]
